@@ -78,7 +78,13 @@ def run(run):
     _r6_serial(run, ev)
     _r7_callback(run)
     _r8_subpyramid(run, ev)
+    # ... and a generic sub-pyramid enumerates exactly the positions below its apex (offset map of the generator, then the apex's
+    # ancestors): decided by C13's generator rule, a premise of "the sub-pyramid walk is the part of the full walk below the apex"
+    from . import C13 as c13
+    common.delegate(run, "C01.R8", "C13", lambda sub: c13._r3_subpyramid(sub, None), only_rules={"C13.R3"}, note="premise: sub-pyramid enumeration")
     _r9_stateless(run)
+    from . import memo
+    memo.check_module(run, "C01.R9", PYR)   # tables / class-level containers of the dispatcher's module that outlive one walk
 
 
 # ---------------------------------------------------------------------------
